@@ -368,9 +368,12 @@ class ODE:
         if not isinstance(__o, ODE):
             return False
 
+        # The order of the components follows the order in which their blocks
+        # appear in the text and carries no meaning
         return (
             __o.comments == self.comments
-            and __o.components == self.components
+            and sorted(__o.components, key=lambda c: c.name)
+            == sorted(self.components, key=lambda c: c.name)
             and __o.name == self.name
         )
 
